@@ -439,4 +439,30 @@ def run(ctx):
                     why = "guard `%s`" % ee.text(n["cond"])
         r.ob(ee.q, "case " + op, ok, why, ee.loc(stmts[0]))
     rules.append(r)
+    # ---------------- PR-consumed: a text counts as a number only when the scanner consumed all of it
+    r = Rule("PR-consumed", "a value/expression text is taken as a number only when the number scanner consumed all of it", floor=3)
+    n_cursor = 0
+    for f in m.functions:
+        if f.inst or f.file.endswith("Digit.hpp") or f.file.endswith("QTest.hpp"):
+            continue
+        for c in astq.calls(f, "StringToNumber"):
+            args = f.call_args(c)
+            ctx.note_fn(f)
+            if len(args) == 3:
+                n_cursor += 1
+                r.ob(f.sig if f.cls else f.q, f.text(c)[:70], False, "the cursor-less overload ignores whatever follows the numeral: \"12abc\" and \"2024-01-05\" would count as numbers", f.loc(c))
+                continue
+            if len(args) != 4:
+                continue
+            n_cursor += 1
+            cur, end = f.text(f.strip_casts(args[2])), f.text(f.strip_casts(args[3])).replace(" ", "")
+            if f.file.endswith("JSON.hpp"):
+                r.ob(f.q, f.text(c)[:70], True, "JSON: the remainder is judged by the enclosing container and by Parse's end-of-input gate (C07)", f.loc(c), nontrivial=False)
+                continue
+            tests = [x for x in astq.nodes_of(f, "BinaryOperator") if f.nodes[x]["op"] == "==" and x > c and
+                     {f.text(f.strip_casts(f.nodes[x]["ch"][0])).replace(" ", ""), f.text(f.strip_casts(f.nodes[x]["ch"][1])).replace(" ", "")} == {cur, end}]
+            r.ob(f.sig if f.cls else f.q, f.text(c)[:70], bool(tests), "cursor `%s` is compared with the end `%s` after the scan: %s" % (cur, end, "yes" if tests else "NO -- a numeric prefix would be accepted"), f.loc(c))
+    if n_cursor < 3:
+        r.broke("expected at least 3 cursor-form StringToNumber calls, found %d" % n_cursor)
+    rules.append(r)
     return rules
